@@ -28,6 +28,7 @@ pub fn property() -> Property {
 fn gens(tier: Tier) -> Vec<Gen> {
     vec![
         Gen { name: "programs", count: tier.pick(8_000, 600_000), exhaustive: false, run: run_program },
+        Gen { name: "after-failure", count: tier.pick(1_500, 60_000), exhaustive: false, run: run_after_failure },
         Gen { name: "custom-bodies", count: tier.pick(4_000, 300_000), exhaustive: false, run: run_custom },
     ]
 }
@@ -790,4 +791,33 @@ fn run_custom(ctx: &mut Ctx, rng: &mut Rng, _index: u64) {
     ctx.max("max_custom_write", prog.ops.iter().map(|o| match o { Op::Write(d) | Op::WriteAll(d) => d.len(), _ => 0 }).max().unwrap_or(0) as u64);
     let what = format!("custom body {:?} buffered={} ops={:?}", prog.kind, prog.buffered, prog.ops.iter().map(|o| match o { Op::Write(d) => format!("write({})", d.len()), Op::WriteAll(d) => format!("write_all({})", d.len()), Op::Zero => "write(0 bytes)".into(), Op::Flush => "flush".into(), Op::Vectored(d) => format!("vectored{:?}", d.iter().map(|x| x.len()).collect::<Vec<_>>()) }).collect::<Vec<_>>());
     send_and_judge(ctx, rb.body(prog), &m, faults, &what);
+}
+
+/// a send that fails while the request is being written (transport error at byte k, or the
+/// caller's Body failing) leaves nothing behind: the next request on the same thread is written
+/// exactly as if the failure had not happened
+fn run_after_failure(ctx: &mut Ctx, rng: &mut Rng, index: u64) {
+    {
+        let (rb, _m) = build_common(rng, ctx, "origin.test");
+        let prog = random_prog(rng, ctx);
+        let total = prog.total().len();
+        let at = rng.range(0, 600);
+        let kind = *rng.pick(&[io::ErrorKind::BrokenPipe, io::ErrorKind::ConnectionReset, io::ErrorKind::TimedOut, io::ErrorKind::WouldBlock]);
+        let faults = WriteFaults { short: if rng.bool() { vec![*rng.pick(&[1usize, 7, 100])] } else { vec![] }, fail_at: Some((at, kind)), interrupt_every: 0 };
+        let f2 = faults.clone();
+        let world = World::install(move |_, _, _| Answer::Script(vec![Step::Data(OK_RESPONSE.to_vec())], f2.clone()));
+        let res = rb.body(prog).send();
+        let written = if world.dial_count() > 0 { world.trace(0).written.len() } else { 0 };
+        match res {
+            Err(_) => ctx.count("failed_sends_before_the_judged_request", 1),
+            Ok(_) => {
+                // the whole request fitted below the failing offset
+                if written > at {
+                    ctx.violation("write-error-swallowed", format!("the transport failed the write carrying byte {at} with {kind:?} but send() returned Ok ({written} bytes accepted, body of {total} bytes)"));
+                }
+                ctx.count("fault_offset_beyond_the_request", 1);
+            }
+        }
+    }
+    run_custom(ctx, rng, index);
 }
